@@ -5,6 +5,7 @@ package server
 import (
 	"bytes"
 	"fmt"
+	"github.com/tidwall/tile38/internal/field"
 	"math"
 	"strconv"
 	"strings"
@@ -161,6 +162,10 @@ func (s *Server) parseArea(ovs []string, doClip bool) (vs []string, o geojson.Ob
 		var obj string
 		if vs, obj, ok = tokenval(vs); !ok || obj == "" {
 			err = errInvalidNumberOfArguments
+			return
+		}
+		if field.JSONTooDeep(obj) {
+			err = errInvalidArgument("object")
 			return
 		}
 		o, err = geojson.Parse(obj, &s.geomParseOpts)
